@@ -107,6 +107,10 @@ def jsonable(v):
     return json.loads(json.dumps(v, default=str, sort_keys=True))
 
 
+def jsonable_plain(v):
+    return json.loads(json.dumps(v))
+
+
 def path_state(cp, *, lines=None, printouts=None, errors=None):
     """Normalised result tuple of one CsvPath (a dict, JSON-able)."""
     return {
@@ -135,3 +139,28 @@ def in_repo(tb_or_exc):
 
 def exc_sig(e):
     return f"{type(e).__name__}: {str(e).splitlines()[0][:160] if str(e) else ''}"
+
+
+def standalone(text, *, entry="collect", nexts=None, delimiter=",", quotechar='"', via=None):
+    """Runs one csvpath text (with the file after '$') on a standalone CsvPath
+    (or one created by CsvPaths `via`).  Returns (csvpath, printed lines, result)
+    where result is the list of lines for collecting entries, else None."""
+    from csvpath.util.printer import TestPrinter
+
+    with quiet():
+        if via is not None:
+            cp = via.csvpath()
+        else:
+            cp = CsvPath(delimiter=delimiter, quotechar=quotechar)
+        tp = TestPrinter()
+        cp.add_printer(tp)
+        if entry == "collect":
+            res = [list(x) for x in (cp.collect(text) if nexts is None else cp.collect(text, nexts=nexts))]
+        elif entry == "next":
+            res = [list(x) for x in cp.next(text)]
+        elif entry == "fast_forward":
+            cp.fast_forward(text)
+            res = None
+        else:
+            raise ValueError(entry)
+    return cp, tp.lines, res
